@@ -127,6 +127,8 @@ def gen_einsums(rng, n=None, part_p=0.4, two_term_p=0.12):
                 ds = []
                 size = rng.randint(2, 4)
                 for lvl in range(depth):
+                    if lvl > 0 and rng.random() < 0.5:
+                        leader = rng.choice(holders)          # another leader for the inner level
                     ds.append("uniform_occupancy(%s.%d)" % (leader, size))
                     size = max(1, size // 2)
             mapping["partitioning"][o] = {r: ds}
